@@ -15,9 +15,15 @@ thread_local! {
     static ENC_ARGS: std::cell::RefCell<Vec<String>> = const { std::cell::RefCell::new(Vec::new()) };
 }
 
+thread_local! {
+    /// log verbosity flags of the current case (must not influence results or exit status)
+    static LOG_ARGS: std::cell::RefCell<Vec<String>> = const { std::cell::RefCell::new(vec![]) };
+}
+
 fn args_with(cfg: &Cfg, extra: &[&str]) -> Vec<String> {
     let mut v = cfg.to_cli_args();
     ENC_ARGS.with(|e| v.extend(e.borrow().iter().cloned()));
+    LOG_ARGS.with(|e| v.extend(e.borrow().iter().cloned()));
     v.extend(extra.iter().map(|s| s.to_string()));
     v
 }
@@ -91,7 +97,10 @@ fn check_content(ctx: &Ctx, out: &mut CaseOut, dir: &Path, cfg: &Cfg, label: &st
     let sub = dir.join(format!("d{}", rng.below(1000)));
     let _ = std::fs::create_dir_all(&sub);
     let ext = *rng.pick(&["pas", "dpr", "dpk", "PAS"]);
-    let file = sub.join(format!("unit{}.{ext}", rng.below(1000)));
+    // (names with glob metacharacters other than `*` are ordinary file names on this platform and
+    // are only ever passed as explicit paths / list entries here)
+    let stem = *rng.pick(&["unit", "unit", "unit", "Unit1[1]", "what?", "a b", "x{1}", "ünï", "-dash", "u#1"]);
+    let file = sub.join(format!("{stem}{}.{ext}", rng.below(1000)));
     let rel = file.strip_prefix(dir).unwrap().to_string_lossy().to_string();
     // ---- stdout mode never writes
     std::fs::write(&file, content).unwrap();
@@ -397,6 +406,17 @@ impl Prop for C16 {
             return out;
         }
         let (mut text, kind) = if rng.chance(3, 4) { (common::well_formed(ctx, &mut rng, 25).text, "well-formed") } else { common::any_input(ctx, &mut rng) };
+        let log_args: Vec<String> = match rng.below(6) {
+            0 => vec!["-v".into()],
+            1 => vec!["-vv".into()],
+            2 => vec!["--log-level".into(), "DEBUG".into()],
+            3 => vec!["--log-level".into(), "ERROR".into()],
+            _ => vec![],
+        };
+        if !log_args.is_empty() {
+            out.count(&format!("log_flags.{}", log_args.join("=")));
+        }
+        LOG_ARGS.with(|e| *e.borrow_mut() = log_args);
         // one third of the cases: a legacy encoding configured with -C encoding=..., and content that
         // has non-ASCII characters of that encoding
         ENC_ARGS.with(|e| e.borrow_mut().clear());
